@@ -6,12 +6,12 @@ def run(pid, tier, seed):
     if pid in ("C01", "C02", "C11"):
         return props_seq.run_seq_property(pid, tier, seed)
     if pid in ("C03", "C04", "C06", "C10"):
-        return props_sched.run_sched_property(pid, tier, seed)
+        return props_sched.run_sched_property(pid, tier, seed, level=("other" if pid == "C04" else "proof"))
     if pid in ("C05", "C08", "C09"):
         # sequential half (all six types, every history) + scheduled half
         rc1 = props_seq.run_seq_property(pid, tier, seed, write=False)
         seq = dict(props_seq.LAST)
-        rc2 = props_sched.run_sched_property(pid, tier, seed, seq_part=seq, level=("proof" if pid == "C08" else "other"))
+        rc2 = props_sched.run_sched_property(pid, tier, seed, seq_part=seq, level="proof")
         return 1 if (rc1 or rc2) else 0
     if pid == "C07":
         return props_misc.run_c07(tier, seed)
